@@ -70,6 +70,10 @@ def mpe (K : Nat) (bits : List Bool) : List Nat × List Bool := build K bits.len
 def spec (K : Nat) (bits : List Bool) (start : Nat) : List Nat × List Bool :=
   (padN K (idxs bits start), padB K (idxs bits start).length)
 
+/-- positions of the set bits of `bits` in ascending order, stated without recursion -/
+def setBits (bits : List Bool) : List Nat :=
+  (List.range bits.length).filter (fun j => bits[j]? == some true)
+
 /-! ### RingMultiPriorityEncoder (elaboratables.py:515-540) -/
 
 /-- `x & ((1 << lc) - 1)` on a bit list -/
@@ -129,6 +133,11 @@ def leaves (inputs : List Nat) (valids : List Bool) : List Node :=
 def ssn (inputs : List Nat) (valids : List Bool) : Option Node :=
   (reduce inputs.length (leaves inputs valids)).head?
 
+/-- the mathematical definition: the inputs whose valid bit is set, in order -/
+def selectValid : List Nat → List Bool → List Nat
+  | x :: xs, v :: vs => if v then x :: selectValid xs vs else selectValid xs vs
+  | _, _ => []
+
 /-! ### one_hot_mux / OneHotMux (functions.py:331-386, elaboratables.py:729-741) -/
 
 /-- `x + 1` on `len(x)` bits -/
@@ -152,8 +161,8 @@ def pairOr : List Nat → List Nat
 def treeOr : Nat → List Nat → Nat
   | _, [] => 0
   | _, [x] => x
-  | 0, x :: _ => x
-  | f+1, l => treeOr f (pairOr l)
+  | 0, x :: _ :: _ => x                 -- not reached when `fuel ≥ l.length`
+  | f+1, a :: b :: rest => treeOr f (pairOr (a :: b :: rest))
 
 /-- `one_hot_mux(inputs = zip(sel, data), default, priority)` -/
 def oneHotMux (priority : Bool) (sel : List Bool) (data : List Nat) (dflt : Option Nat) : Nat :=
